@@ -28,7 +28,7 @@ func c12Values() []jval {
 		{"0", 0.0}, {"1", 1.0}, {"-1", -1.0}, {"0.5", 0.5}, {"2", 2.0}, {"50", 50.0}, {"100", 100.0}, {"101", 101.0},
 		{"255", 255.0}, {"256", 256.0}, {"360.5", 360.5}, {"1e10", 1e10}, {"-1e10", -1e10}, {"2^31", 2147483648.0}, {"2^32", 4294967296.0},
 		{"2^53", 9007199254740992.0}, {"2^63", 9223372036854775808.0}, {"2^64", 18446744073709551616.0}, {"1e300", 1e300}, {"-1e300", -1e300},
-		{"int:7", 7}, {"int:-7", -7},
+		{"int:7", 7}, {"int:-7", -7}, {"int:2^53+4", 9007199254740996}, {"int:2^53+6", 9007199254740998}, {"int:MaxInt64", math.MaxInt64}, {"str:MaxInt64", "9223372036854775807"},
 		{"str:empty", ""}, {"str:abc", "abc"}, {"str:12", "12"}, {"str:1.5", "1.5"}, {"str:-3", "-3"}, {"str:NaN", "NaN"},
 		{"str:Inf", "Inf"}, {"str:-Inf", "-Inf"}, {"str:1e999", "1e999"}, {"str:true", "true"},
 		{"true", true}, {"false", false}, {"null", nil},
@@ -73,6 +73,7 @@ func c12Subjects() []c12Subject {
 		{"Int/uint16", characteristic.FormatUInt16, nil, nil}, {"Int/uint32", characteristic.FormatUInt32, nil, nil},
 		{"Int/uint64", characteristic.FormatUInt64, nil, nil}, {"Int/int32", characteristic.FormatInt32, nil, nil},
 		{"Int/int32[-50,50]", characteristic.FormatInt32, -50, 50}, {"Int/uint32[1,1]", characteristic.FormatUInt32, 1, 1},
+		{"Int/uint64[0,2^53+3]", characteristic.FormatUInt64, 0, 9007199254740995}, {"Int/uint64[0,MaxInt64]", characteristic.FormatUInt64, 0, math.MaxInt64},
 	} {
 		g := g
 		out = append(out, c12Subject{"generic." + g.name, func() (interface{}, *characteristic.Characteristic) {
@@ -135,7 +136,47 @@ type c12Step struct {
 	// GetCB: the value is not written but supplied by an application read callback (OnValueGet) when the value is
 	// read, locally (Remote false: the typed getter) or by a controller (Remote true)
 	GetCB bool `json:"getcb,omitempty"`
+	// Nested: the value is written by an application change handler of the SAME characteristic, while that handler is
+	// being notified of another (valid) change — a handler that corrects its own characteristic
+	Nested bool `json:"nested,omitempty"`
 }
+
+// c12Other is a valid value different from the current one (to trigger a change notification).
+func c12Other(ch *characteristic.Characteristic) interface{} {
+	switch cur := ch.Value.(type) {
+	case bool:
+		return !cur
+	case int:
+		if mx, ok := ch.MaxValue.(int); ok && cur >= mx {
+			if mn, ok := ch.MinValue.(int); ok {
+				return mn
+			}
+			return cur - 1
+		}
+		return cur + 1
+	case float64:
+		if mx, ok := num(ch.MaxValue); ok && cur >= mx {
+			if mn, ok := num(ch.MinValue); ok {
+				return mn
+			}
+			return cur - 1
+		}
+		if st, ok := num(ch.StepValue); ok && st > 0 {
+			return cur + st
+		}
+		return cur + 1
+	case string:
+		if ch.Format == characteristic.FormatString {
+			return cur + "x"
+		}
+		if cur == "AQID" {
+			return "BAUG"
+		}
+		return "AQID"
+	}
+	return nil
+}
+
 type c12Case struct {
 	Subject string    `json:"subject"`
 	Steps   []c12Step `json:"steps"`
@@ -167,8 +208,29 @@ func c12Exec(c *fw.Ctx, sub c12Subject, steps []c12Step, vals map[string]interfa
 		if st.GetCB {
 			mode = "getcb-" + mode
 		}
+		if st.Nested {
+			mode = "nested-" + mode
+		}
 		if p := guard(func() {
-			if st.GetCB {
+			if st.Nested {
+				trigger := c12Other(ch)
+				if trigger == nil {
+					return
+				}
+				done := false
+				ch.OnValueUpdate(func(_ *characteristic.Characteristic, _, _ interface{}) {
+					if !done {
+						done = true
+						ch.UpdateValue(v)
+					}
+				})
+				if st.Remote {
+					ch.UpdateValueFromConnection(trigger, nullConn{})
+				} else {
+					ch.UpdateValue(trigger)
+				}
+				done = true
+			} else if st.GetCB {
 				ch.OnValueGet(func() interface{} { return v })
 				defer ch.OnValueGet(nil)
 				if st.Remote {
@@ -335,6 +397,7 @@ func c12Run(c *fw.Ctx) {
 		for i, l := range labels {
 			if !seenClass[key] || i%8 == 0 || strings.HasPrefix(l, "m") {
 				events = append(events, c12Step{Val: l, GetCB: true}, c12Step{Val: l, Remote: true, GetCB: true})
+				events = append(events, c12Step{Val: l, Nested: true}, c12Step{Val: l, Remote: true, Nested: true})
 			}
 		}
 		if c.Thorough() && !seenClass[key] {
@@ -398,7 +461,7 @@ func init() {
 	fw.Register(&fw.Check{
 		ID:          "C12",
 		Level:       "model_checking",
-		Rule:        "every characteristic constructor found in /repo plus 16 generic constructor × format × bounds configurations; every update sequence of length ≤2 (thorough: ≤3 once per behaviour class = (format, min, max, default type, permissions)) over ≈40 JSON-like values (numbers of every magnitude and sign, numeric / NaN / Inf strings, booleans, null, arrays, objects, the constructor's own min−1/min/max/max+1), each applied locally or from a connection, or supplied by an application read callback when the value is read locally (typed getter) or by a controller; plus, for every constructor with declared bounds, two live instances (one with narrowed bounds) updated alternately; after every update: no panic, stored value has the Go type of the format, is finite and within declared bounds, typed getter and JSON encoding succeed. states = executed sequences, distinct_nontrivial = distinct (format, stored Go type) classes Plus, in a subprocess built with a scheduling point before EVERY statement of hc's packages (textual insertion through go build -overlay): every interleaving with at most 1 (thorough 2) preemptions of pairs of operations on disjoint objects — and, where the property is about served requests, of pairs of handlers on two verified connections of one accessory touching different characteristics — each side must observe exactly what it observes when the two run one after the other (module-level mutable state is what makes them differ).",
+		Rule:        "every characteristic constructor found in /repo plus 16 generic constructor × format × bounds configurations; every update sequence of length ≤2 (thorough: ≤3 once per behaviour class = (format, min, max, default type, permissions)) over ≈40 JSON-like values (numbers of every magnitude and sign, numeric / NaN / Inf strings, booleans, null, arrays, objects, the constructor's own min−1/min/max/max+1), each applied locally or from a connection, or supplied by an application read callback when the value is read locally (typed getter) or by a controller, or written by a change handler of the same characteristic while it is being notified of another change; plus, for every constructor with declared bounds, two live instances (one with narrowed bounds) updated alternately; after every update: no panic, stored value has the Go type of the format, is finite and within declared bounds, typed getter and JSON encoding succeed. states = executed sequences, distinct_nontrivial = distinct (format, stored Go type) classes Plus, in a subprocess built with a scheduling point before EVERY statement of hc's packages (textual insertion through go build -overlay): every interleaving with at most 1 (thorough 2) preemptions of pairs of operations on disjoint objects — and, where the property is about served requests, of pairs of handlers on two verified connections of one accessory touching different characteristics — each side must observe exactly what it observes when the two run one after the other (module-level mutable state is what makes them differ).",
 		Run:         c12Run,
 		Replay:      c12Replay,
 		Budget:      func(string) time.Duration { return 25 * time.Minute },
